@@ -59,6 +59,10 @@ pub enum Op {
         tests: Vec<(usize, i64)>,
         main_call: Option<(usize, i64)>,
     },
+    /// export an iterator made from generator GEN<func>(0) and a function that pulls from it
+    MakeGen { func: usize },
+    /// the host pulls one element from the exported generator (through the exported function)
+    Pull { plan: FaultPlan },
     /// call_instance_function(OBJ, OBJ.m<k>, [arg])
     CallInstance { func: usize, arg: i64, plan: FaultPlan },
     Call { func: usize, args: Args, plan: FaultPlan },
@@ -79,6 +83,8 @@ impl Op {
             Op::Call { args: Args::None, .. } => "CallTooFewArgs",
             Op::Call { args: Args::Two, .. } => "CallTooManyArgs",
             Op::CallInstance { .. } => "CallInstance",
+            Op::MakeGen { .. } => "MakeGen",
+            Op::Pull { .. } => "Pull",
             Op::CallNonCallable => "CallNonCallable",
             Op::CallMissing => "CallMissing",
             Op::Show { .. } => "Show",
@@ -110,6 +116,12 @@ pub const MODULES: &[(&str, &str)] = &[
     ("badsyntax.koto", "export q = (1 +\n"),
     ("main.koto", "# placeholder for the importing script\n"),
 ];
+
+pub fn make_gen_script(func: usize) -> String {
+    format!(
+        "export GG = GEN{func}(0)\nexport PULL = ||\n  r = GG.next()\n  if r == null\n    return -99\n  return r.get()\n'made'\n"
+    )
+}
 
 fn import_script(k: ImportKind) -> &'static str {
     match k {
@@ -183,6 +195,8 @@ pub fn gen_history(seed: u64) -> History {
     let mut cur_funcs = 0usize;
     let mut gl_model: Vec<i64> = vec![];
     let mut cur: Option<(Program, Printed)> = None;
+    // exported generator: (function, next index, dead)
+    let mut gen_state: Option<(usize, i64, bool)> = None;
 
     // choose a fault position inside an operation from the model's own fault-free run
     let mut pick_plan = |fr: &mut Rng, p: &Program, printed: &Printed, entry: Entry, gl: &Vec<i64>| -> FaultPlan {
@@ -255,6 +269,7 @@ pub fn gen_history(seed: u64) -> History {
                 // the probe battery, so nothing exported earlier can be called afterwards
                 cur_funcs = if run_tests { 0 } else { p.funcs.len() };
                 cur = Some((p.clone(), printed));
+                gen_state = None;
                 Op::Run { prog: p, plan, tests, main_call }
             }
             7..=10 if cur_funcs > 0 => {
@@ -305,6 +320,24 @@ pub fn gen_history(seed: u64) -> History {
                 let pred = Model::run_entry(p, printed, &plan, mopts(0), Entry::Func(func, arg), gl_model.clone());
                 gl_model = pred.gl.clone();
                 Op::CallInstance { func, arg, plan }
+            }
+            14 if cur_funcs > 0 && gen_state.is_none() && r.chance(2, 3) => {
+                let func = r.usize_below(cur_funcs);
+                gen_state = Some((func, 0, false));
+                Op::MakeGen { func }
+            }
+            11..=14 if gen_state.is_some() && r.chance(1, 2) => {
+                let (func, ix, dead) = gen_state.unwrap();
+                if dead || ix >= 2 {
+                    Op::Pull { plan: FaultPlan::new() }
+                } else {
+                    let (p, printed) = cur.as_ref().unwrap();
+                    let plan = pick_plan(&mut fr, p, printed, Entry::Func(func, ix), &gl_model);
+                    let pred = Model::run_entry(p, printed, &plan, mopts(0), Entry::Func(func, ix), gl_model.clone());
+                    gl_model = pred.gl.clone();
+                    gen_state = Some((func, ix + 1, pred.result.is_err()));
+                    Op::Pull { plan }
+                }
             }
             13 => Op::CallNonCallable,
             14 => Op::CallMissing,
@@ -570,6 +603,7 @@ pub fn exec_op(
             Op::Run { plan, .. }
             | Op::Call { plan, .. }
             | Op::CallInstance { plan, .. }
+            | Op::Pull { plan }
             | Op::Show { plan, .. } => plan.clone(),
             _ => FaultPlan::new(),
         };
@@ -593,6 +627,14 @@ pub fn exec_op(
                     koto.exports_mut().clear();
                 }
                 let r = koto.compile_and_run(source.unwrap());
+                render(koto, r)
+            }
+            Op::MakeGen { func } => {
+                let r = koto.compile_and_run(&make_gen_script(*func));
+                render(koto, r)
+            }
+            Op::Pull { .. } => {
+                let r = koto.call_exported_function("PULL", &[]);
                 render(koto, r)
             }
             Op::CallInstance { func, arg, .. } => {
@@ -764,6 +806,7 @@ pub fn evaluate(h: &History, ws: &HistWorkerState) -> HistEval {
     let mut inst = new_instance(h, &ws.scratch);
     let mut gl: Vec<i64> = vec![];
     let mut cur: Option<(Program, Printed)> = None;
+    let mut gen_state: Option<(usize, i64, bool)> = None;
     let mut any_failed = false;
     let mut first_run = true;
     let mut kinds: Vec<(&'static str, bool)> = vec![];
@@ -785,6 +828,7 @@ pub fn evaluate(h: &History, ws: &HistWorkerState) -> HistEval {
                 }
                 let p = predict_run(prog, &printed, plan, gl.clone(), tests, *main_call, h.run_tests);
                 gl = p.gl.clone();
+                gen_state = None;
                 source = Some(printed.source.clone());
                 cur = Some((prog.clone(), printed));
                 pred = Some(p);
@@ -815,6 +859,29 @@ pub fn evaluate(h: &History, ws: &HistWorkerState) -> HistEval {
                     }
                 }
             }
+            Op::MakeGen { func } => {
+                if cur.as_ref().is_some_and(|c| *func < c.0.funcs.len()) {
+                    gen_state = Some((*func, 0, false));
+                    expect_value = Some("made".into());
+                } else {
+                    gen_state = None;
+                    expect_err_only = Some(true);
+                }
+            }
+            Op::Pull { plan } => match (gen_state, cur.as_ref()) {
+                (Some((func, ix, dead)), Some((p, printed))) if func < p.funcs.len() => {
+                    if dead || ix >= 2 {
+                        // a generator that finished or failed yields nothing more
+                        expect_value = Some("-99".into());
+                    } else {
+                        let pr = Model::run_entry(p, printed, plan, mopts(0), Entry::Func(func, ix), gl.clone());
+                        gl = pr.gl.clone();
+                        gen_state = Some((func, ix + 1, pr.result.is_err()));
+                        pred = Some(pr);
+                    }
+                }
+                _ => expect_err_only = Some(true),
+            },
             Op::CallInstance { func, arg, plan } => {
                 let Some((p, printed)) = cur.as_ref() else {
                     ev.harness_error = Some("CallInstance before any Run".into());
@@ -1043,6 +1110,7 @@ pub fn evaluate(h: &History, ws: &HistWorkerState) -> HistEval {
                     "Call" => "failed.Call",
                     "CallTooFewArgs" => "failed.CallTooFewArgs",
                     "CallInstance" => "failed.CallInstance",
+                    "Pull" => "failed.Pull(generator element)",
                     "CallTooManyArgs" => "failed.CallTooManyArgs",
                     "CallNonCallable" => "failed.CallNonCallable",
                     "CallMissing" => "failed.CallMissing",
@@ -1114,6 +1182,11 @@ pub fn shrink(h: &History, class: &str, ws: &HistWorkerState) -> (History, usize
                         cands.push(c);
                     }
                 }
+                Op::Pull { plan } if !plan.is_empty() => {
+                    let mut c = best.clone();
+                    c.ops[i] = Op::Pull { plan: FaultPlan::new() };
+                    cands.push(c);
+                }
                 Op::CallInstance { func, arg, plan } if !plan.is_empty() => {
                     let mut c = best.clone();
                     c.ops[i] = Op::CallInstance { func: *func, arg: *arg, plan: FaultPlan::new() };
@@ -1165,6 +1238,8 @@ pub fn history_to_json(h: &History) -> Value {
                 first = false;
                 json!({"op": "Run", "source": printed.source, "fault_plan": plan_to_json(plan), "clear_exports_first": h.run_tests})
             }
+            Op::MakeGen { func } => json!({"op": "RunPlain", "source": make_gen_script(*func), "make_gen": func}),
+            Op::Pull { plan } => json!({"op": "Call", "function": "PULL", "args": [], "fault_plan": plan_to_json(plan)}),
             Op::CallInstance { func, arg, plan } => json!({
                 "op": "CallInstance", "instance": "OBJ", "function": format!("m{func}"), "args": [arg], "fault_plan": plan_to_json(plan)
             }),
@@ -1211,6 +1286,7 @@ pub fn replay(doc: &Value) -> (Option<(String, String)>, u64) {
         // rebuild an executable op
         let (op, source): (Op, Option<String>) = match o["op"].as_str().unwrap_or("") {
             "Run" => (Op::Run { prog: Program::default(), plan, tests: vec![], main_call: None }, Some(src)),
+            "RunPlain" => (Op::MakeGen { func: o["make_gen"].as_u64().unwrap_or(0) as usize }, None),
             "CallInstance" => {
                 let func: usize = o["function"].as_str().unwrap_or("m0").trim_start_matches('m').parse().unwrap_or(0);
                 (Op::CallInstance { func, arg: o["args"][0].as_i64().unwrap_or(0), plan }, None)
@@ -1235,6 +1311,8 @@ pub fn replay(doc: &Value) -> (Option<(String, String)>, u64) {
                     (Op::CallNonCallable, None)
                 } else if name == "no_such_function" {
                     (Op::CallMissing, None)
+                } else if name == "PULL" {
+                    (Op::Pull { plan }, None)
                 } else {
                     let func: usize = name.trim_start_matches('f').parse().unwrap_or(0);
                     let a = match args.len() {
@@ -1344,6 +1422,7 @@ fn expectations(h: &History) -> Vec<Value> {
     let mut out = vec![];
     let mut gl = vec![];
     let mut cur: Option<(Program, Printed)> = None;
+    let mut gen_state: Option<(usize, i64, bool)> = None;
     let mut first = true;
     for op in &h.ops {
         let opts = || ModelOpts { tick_start: 0, finally_on_abrupt_exit: false };
@@ -1371,6 +1450,25 @@ fn expectations(h: &History) -> Vec<Value> {
                 gl = pr.gl.clone();
                 out.push(unwindsim::prediction_to_json(&pr));
             }
+            Op::MakeGen { func } => {
+                gen_state = Some((*func, 0i64, false));
+                out.push(Value::Null);
+            }
+            Op::Pull { plan } => match (gen_state, cur.as_ref()) {
+                (Some((func, ix, dead)), Some((p, printed))) if func < p.funcs.len() => {
+                    if dead || ix >= 2 {
+                        let mut pr = Prediction::default();
+                        pr.result = Ok("-99".into());
+                        out.push(unwindsim::prediction_to_json(&pr));
+                    } else {
+                        let pr = Model::run_entry(p, printed, plan, opts(), Entry::Func(func, ix), gl.clone());
+                        gl = pr.gl.clone();
+                        gen_state = Some((func, ix + 1, pr.result.is_err()));
+                        out.push(unwindsim::prediction_to_json(&pr));
+                    }
+                }
+                _ => out.push(Value::Null),
+            },
             Op::Show { func, plan } if cur.as_ref().is_some_and(|c| *func < c.0.funcs.len()) => {
                 let (p, printed) = cur.as_ref().unwrap();
                 let pr = Model::run_entry(p, printed, plan, opts(), Entry::Display(*func), gl.clone());
